@@ -39,6 +39,8 @@ structure St where
   fitMax : Int := 0
 
 def St.env (s : St) : Env := tableEnv s.ups s.los s.tss
+/-- SPEC environment: numeric time literals mean their exact integer value (not what the real parser answered) -/
+def St.senv (s : St) : Env := exactEnv s.env
 
 /-! ### AST parser over tokens (fuel = number of tokens) -/
 
@@ -101,7 +103,7 @@ def parseEvents : Nat → Nat → List String → List IEv
 def fltOf (s : St) : IEv → Bool := fun p => match s.built with | .ok f => f p.2 | .error _ => false
 def rngOf (s : St) : IEv → Bool := fun p => inRange s.fitMin s.fitMax p.2.ts
 
-def specSupported (s : St) (e : Option Expr) : Bool := match e with | none => true | some x => supported s.env x
+def specSupported (s : St) (e : Option Expr) : Bool := match e with | none => true | some x => supported s.senv x
 
 def step (s : St) (toks : List String) : St × String :=
   match toks with
@@ -121,13 +123,13 @@ def step (s : St) (toks : List String) : St × String :=
     | _ => (s, "bad-ast")
   | "specexpr" :: rest =>
     match pExpr rest with
-    | some (e, []) => ({ s with specExpr := some (some e) }, s!"supported={b01 (supported s.env e)} wf={b01 (wellFormed e)}")
+    | some (e, []) => ({ s with specExpr := some (some e) }, s!"supported={b01 (supported s.senv e)} wf={b01 (wellFormed e)}")
     | _ => (s, "bad-ast")
   | ["ev", ts, m, f] =>
     let ev : Event := ⟨ts.toInt!, unhex m, unhex f⟩
     let model := match s.built with | .ok p => b01 (p ev) | .error _ => "err"
     let se := s.specExpr.getD s.expr
-    let spec := if specSupported s se then b01 (evalWhereRef s.env se ev) else "rej"
+    let spec := if specSupported s se then b01 (evalWhereRef s.senv se ev) else "rej"
     (s, s!"model={model} spec={spec} fwf={b01 (decide (Logrange.Fields.WF ev.fields))}")
   | ["match", p, n] =>
     (s, match Logrange.PathMatch.pathMatch (unhex p) (unhex n) with | none => "bad" | some true => "1" | some false => "0")
@@ -158,7 +160,7 @@ def step (s : St) (toks : List String) : St × String :=
     let evs := parseEvents n.toNat! 0 rest
     let se := s.specExpr.getD s.expr
     if !specSupported s se then (s, "rej") else
-    let out := evs.filter (fun p => evalWhereRef s.env se p.2 && inRange mn.toInt! mx.toInt! p.2.ts)
+    let out := evs.filter (fun p => evalWhereRef s.senv se p.2 && inRange mn.toInt! mx.toInt! p.2.ts)
     (s, "ok" ++ String.join (out.map (fun e => s!" {e.1}")))
   | _ => (s, "bad-op")
 
